@@ -9,8 +9,11 @@ Reading of the statement in the model
   entry is `expected cfg c` (`C16_correlation`, `C16_exact_*`); in every state where no step is enabled every
   arrived caller has exactly one entry (`C16_no_loss_*`).
 * "a request that fails with a platform-level error fails alone" : `C16_isolation`.
-* `Config.locked = false` is `Wrapper._get_descriptor` as it exists, `true` is the proposed repair
-  (fixes/C16-descriptor-lock.diff).
+* `Config.locked = true` is `Wrapper._get_descriptor` as it exists (critical section under `Wrapper._lock`,
+  /repo 710a92e = fixes/C16-descriptor-lock.diff); `false` is the code before that repair, kept for the
+  kernel-checked witness of the fixed defect C16-F1.
+* `hasFatal cfg = false` : no request makes an actor raise a non-`forml.AnyError` exception — that is outside the
+  property's fault class (unsupported encoding, unknown application, missing features) and does stop a pool.
 -/
 import ForML.Lemmas.C16
 
@@ -58,25 +61,28 @@ theorem C16_correlation (cfg : Config) (sched : List Step) (s : State) (h : run 
   intro c
   exact filter_len_le_one c s.answers inv.c.ans_nodup
 
-/-- The property's first sentence at full strength, for every configuration including the code as it exists
-(`locked = false`): whatever a caller is answered is what the property prescribes. -/
+/-- The property's first sentence at full strength for the code that exists: under **every** schedule, whatever
+a caller is answered is the outcome computed from its own payload by the instance its application selected (or
+its own platform-level error). -/
 def C16_exact_full : Prop :=
-  ∀ (cfg : Config) (sched : List Step) (s : State), hasFatal cfg = false → run cfg init sched = some s →
-    ∀ c o, (c, o) ∈ s.answers → o = expected cfg c
+  ∀ (cfg : Config) (sched : List Step) (s : State), cfg.locked = true → hasFatal cfg = false →
+    run cfg init sched = some s → ∀ c o, (c, o) ∈ s.answers → o = expected cfg c
 
-/-- With the descriptor critical section under a lock (the repair) the first sentence holds for every schedule. -/
-theorem C16_exact_partial (cfg : Config) (sched : List Step) (s : State) (hl : cfg.locked = true)
-    (hf : hasFatal cfg = false) (h : run cfg init sched = some s) :
-    ∀ c o, (c, o) ∈ s.answers → o = expected cfg c := by
-  intro c o hm
+theorem C16_exact : C16_exact_full := by
+  intro cfg sched s hl hf h c o hm
   rcases (C16_correlation cfg sched s h).2.2 c o hm with e | ⟨_, e⟩ | ⟨_, e⟩
   · exact e
   · simp [hl] at e
   · simp [hf] at e
 
+/-- The same statement without the descriptor lock, i.e. for `_get_descriptor` as it was before 710a92e. -/
+def C16_exact_unlocked_full : Prop :=
+  ∀ (cfg : Config) (sched : List Step) (s : State), hasFatal cfg = false → run cfg init sched = some s →
+    ∀ c o, (c, o) ∈ s.answers → o = expected cfg c
+
 /-- D17: two first requests for the same (known) application, `_get_descriptor` unsynchronised. -/
 def raceCfg : Config :=
-  { callers := [⟨0, false, ⟨.ok, 7⟩⟩, ⟨0, false, ⟨.ok, 8⟩⟩], inventory := [0], select := fun a => a,
+  { callers := [⟨0, false, false, ⟨.ok, 7⟩⟩, ⟨0, false, false, ⟨.ok, 8⟩⟩], inventory := [0], select := fun a => a,
     workers := 1, locked := false }
 
 /-- thread 0: check; thread 1: check; thread 0: list, diff, update; thread 1: list, diff (now empty), update,
@@ -84,7 +90,7 @@ test → "application not found". -/
 def raceSched : List Step :=
   [.arrive 0, .arrive 1, .desc 0, .desc 1, .desc 0, .desc 0, .desc 0, .desc 1, .desc 1, .desc 1, .desc 1]
 
-theorem C16_descriptor_race_counterexample : ¬ C16_exact_full := by
+theorem C16_descriptor_race_counterexample : ¬ C16_exact_unlocked_full := by
   intro h
   cases hr : run raceCfg init raceSched with
   | none => exact absurd hr (by decide)
@@ -95,7 +101,7 @@ theorem C16_descriptor_race_counterexample : ¬ C16_exact_full := by
     have := h raceCfg raceSched s (by decide) hr 1 (.error .missingApp) (by simp [hans])
     exact absurd this (by decide)
 
-/-- the same interleaving is not a schedule of the repaired code: thread 1 cannot pass the check while
+/-- the same interleaving is not a schedule of the code that exists: thread 1 cannot pass the check while
 thread 0 holds the lock -/
 example : run { raceCfg with locked := true } init raceSched = none := by decide
 
@@ -129,7 +135,7 @@ theorem C16_no_loss_partial (cfg : Config) (sched : List Step) (s : State) (hw :
 stops the whole pool (`Pool.Worker.run`: `self._stopped.set()`), `Executor.run` leaves its loop, and every
 caller still pending on that executor — here also the healthy caller 1 — is never answered. -/
 def fatalCfg : Config :=
-  { callers := [⟨0, false, ⟨.fatal, 1⟩⟩, ⟨0, false, ⟨.ok, 2⟩⟩], inventory := [0], select := fun a => a,
+  { callers := [⟨0, false, false, ⟨.fatal, 1⟩⟩, ⟨0, false, false, ⟨.ok, 2⟩⟩], inventory := [0], select := fun a => a,
     workers := 1, locked := true }
 
 def fatalSched : List Step :=
@@ -152,8 +158,8 @@ theorem C16_fatal_counterexample : ¬ C16_no_loss_full := by
 /-! ### isolation -/
 
 /-- **A platform-level failure fails alone.** Let `cfg'` differ from `cfg` at most in caller `c`'s request
-(e.g. `c` healthy in `cfg`; unknown application, undecodable content type or missing column in `cfg'` —
-anything but a fatal exception). Then under every schedule of `cfg'` every other caller is answered at most
+(e.g. `c` healthy in `cfg`; unknown application, undecodable content type, unacceptable response encoding or
+missing column in `cfg'` — anything but a fatal exception). Then under every schedule of `cfg'` every other caller is answered at most
 once, only with the outcome the property prescribes for it in `cfg`, and exactly once wherever the schedule
 is complete. -/
 theorem C16_isolation (cfg cfg' : Config) (c : Nat)
@@ -166,27 +172,27 @@ theorem C16_isolation (cfg cfg' : Config) (c : Nat)
   intro d hd
   refine ⟨fun o hm => ?_, (C16_correlation cfg' sched s h).2.1 d,
     fun hst hp => C16_no_loss_partial cfg' sched s hw hf h hst d hp⟩
-  have := C16_exact_partial cfg' sched s hl hf h d o hm
+  have := C16_exact cfg' sched s hl hf h d o hm
   rw [this]
-  simp [expected, entryOf, hsame d hd, hinv, hsel]
+  simp [expected, finalOf, encode, entryOf, hsame d hd, hinv, hsel]
 
 /-! ### non-vacuity (tests on concrete objects, not part of the claim) -/
 
-/-- three callers over two applications / instances, one undecodable, one with a missing column, one unknown
-application; two workers; the repaired descriptor code -/
+/-- six callers over two applications / instances and an unknown one: healthy, healthy, undecodable content type,
+missing column, unknown application, no acceptable response encoding; two workers; the code that exists -/
 def demoCfg : Config :=
-  { callers := [⟨0, false, ⟨.ok, 5⟩⟩, ⟨1, false, ⟨.ok, 6⟩⟩, ⟨0, true, ⟨.ok, 7⟩⟩, ⟨1, false, ⟨.missingColumn, 8⟩⟩,
-                ⟨9, false, ⟨.ok, 9⟩⟩],
+  { callers := [⟨0, false, false, ⟨.ok, 5⟩⟩, ⟨1, false, false, ⟨.ok, 6⟩⟩, ⟨0, true, false, ⟨.ok, 7⟩⟩,
+                ⟨1, false, false, ⟨.missingColumn, 8⟩⟩, ⟨9, false, false, ⟨.ok, 9⟩⟩, ⟨0, false, true, ⟨.ok, 10⟩⟩],
     inventory := [0, 1], select := fun a => a + 10, workers := 2, locked := true }
 
 example : demoCfg.locked = true ∧ hasFatal demoCfg = false ∧ 1 ≤ demoCfg.workers := by decide
 
-/-- a complete pseudo-random schedule of `demoCfg` is a schedule (`run` accepts it), ends stuck, and all five
+/-- a complete pseudo-random schedule of `demoCfg` is a schedule (`run` accepts it), ends stuck, and all six
 callers are answered as prescribed -/
 example : (run demoCfg init (randomRun demoCfg (instsOf demoCfg) 200 1 init []).2).map
-    (fun s => (stuck demoCfg s, s.answers.length)) = some (true, 5) := by decide +kernel
+    (fun s => (stuck demoCfg s, s.answers.length)) = some (true, 6) := by decide +kernel
 
-example : (randomRun demoCfg (instsOf demoCfg) 200 1 init []).1.answers.length = 5
+example : (randomRun demoCfg (instsOf demoCfg) 200 1 init []).1.answers.length = 6
     ∧ stuck demoCfg (randomRun demoCfg (instsOf demoCfg) 200 1 init []).1 = true
     ∧ ∀ a ∈ (randomRun demoCfg (instsOf demoCfg) 200 1 init []).1.answers, a.2 = expected demoCfg a.1 := by
   decide +kernel
